@@ -14,7 +14,6 @@ import (
 	"fmt"
 	"strings"
 
-	"github.com/tetratelabs/wazero"
 	rs "github.com/tetratelabs/wazero/verif/checks/c05/refsem"
 	"github.com/tetratelabs/wazero/verif/wb"
 )
@@ -239,14 +238,14 @@ func (w *worker) runPairs(a *pairOp, bs []*pairOp, st *stats, rep func(pm pairMi
 		}
 	}
 	for e := 0; e < 2; e++ {
-		cm, err := w.rt[e].CompileModule(ctx, bin)
+		cm, err := w.compile(e, bin)
 		if err != nil {
-			rep(pairMismatch{A: a, B: bs[0], engine: e, which: "compile", got: "compile error: " + firstLine(err.Error()), wantText: "valid module"})
+			rep(pairMismatch{A: a, B: bs[0], engine: e, which: errClass("compile", err), got: errText("compile", err), wantText: "valid module"})
 			continue
 		}
-		mod, err := w.rt[e].InstantiateModule(ctx, cm, wazero.NewModuleConfig().WithName(""))
+		mod, err := w.instantiate(e, cm)
 		if err != nil {
-			rep(pairMismatch{A: a, B: bs[0], engine: e, which: "instantiate", got: firstLine(err.Error()), wantText: "instance"})
+			rep(pairMismatch{A: a, B: bs[0], engine: e, which: errClass("instantiate", err), got: errText("instantiate", err), wantText: "instance"})
 			cm.Close(ctx)
 			continue
 		}
@@ -272,8 +271,8 @@ func (w *worker) runPairs(a *pairOp, bs []*pairOp, st *stats, rep func(pm pairMi
 					binary.LittleEndian.PutUint64(mem[o+off+8:], 0x5a5a5a5a5a5a5a5a)
 				}
 			}
-			if _, err := fn.Call(ctx, uint64(c1-c0)); err != nil {
-				rep(pairMismatch{A: a, B: bs[slots[c0].f], engine: e, which: "call", got: "error: " + firstLine(err.Error()), wantText: "no trap (trapping tuples are excluded)"})
+			if _, err := call(fn, uint64(c1-c0)); err != nil {
+				rep(pairMismatch{A: a, B: bs[slots[c0].f], engine: e, which: errClass("call", err), got: errText("call", err), wantText: "no trap (trapping tuples are excluded)"})
 				continue
 			}
 			for s, sl := range slots[c0:c1] {
